@@ -7,6 +7,7 @@ import random
 
 from .. import campaign as C
 from .. import sweeps as S
+from .. import tlc
 from ..words import limbs
 from .c18 import _dispatch
 
@@ -225,6 +226,36 @@ def vmsa_ld_task(task):
     return out
 
 
+def lpae_scenarios(ctx, scen):
+    """spec -> code: every scenario MC_LPAE printed (walk shape x APTable at both levels x AP x AF x T0SZ x priv x R/W)
+    is built on a real LPAE-configured instance from the printed registers and descriptor bytes; translate_address() is
+    called and TLC judges the recorded event"""
+    proto = S.mk_group(dict(name='lpae-mc', cfg=LCFG))
+    st0 = proto.fresh()
+    C.randomize(st0, random.Random(1), mode=19, thumb=False, pc=0x40)
+    for k in ('TTBR1', 'TTBR1H', 'TTBR0H', 'MAIR1', 'FCSEIDR', 'DFSR', 'DFAR', 'DACR', 'PRRR', 'NMRR'):
+        st0['sys'][k] = limbs(0)
+    for b in st0['mem']['base'][1:]:
+        b[:] = [0] * len(b)
+    C.M.inject(proto.arm, dict(st0, osys={}, memsz=[]))
+    proto.base = C.M.project(proto.arm)
+    for i, sc in enumerate(scen):
+        st = proto.fresh()
+        p = sc['p']
+        st['cpsr'] = limbs((C.unlimbs(st['cpsr']) & ~31) | (19 if p['priv'] else 16))
+        st['sys']['TTBCR'], st['sys']['TTBR0'] = sc['ttbcr'], sc['ttbr0']
+        st['sys']['MAIR0'], st['sys']['SCTLR'] = sc['mair0'], limbs(C.unlimbs(sc['sctlr']) | (1 << 22))
+        for dev, off, byte in sc['w']:
+            # the model uses one device [0x4000, 0xD000); the instance has [0x4000,0x8000) [0x8000,0xC000) [0xC000,0x10000)
+            a = 0x4000 + off
+            d = 1 if a < 0x8000 else 2 if a < 0xC000 else 3
+            st['mem']['base'][d][a - (0x4000, 0x8000, 0xC000)[d - 1]] = byte
+        act = {'n': 'Translate', 'addr': sc['va'], 'size': 4, 'priv': bool(p['priv']), 'iswrite': bool(p['wr']), 'aligned': True}
+        proto.add(st, act, meta={'scenario': i, 'shape': p['shape'], 'expected': sc['expected'], 'p': p, 'ld': True})
+        ctx.behaviours += 1
+    return proto
+
+
 def clause_filter(c, v, e):
     return (v['path'].startswith(('memapi', 'exact', 'notimpl')) and c not in ('range', 'confine', 'nop-on-condfail')) or c == 'hosterror'
 
@@ -234,9 +265,17 @@ def run(ctx):
     q = ctx.quick
     ctx.mc('MC_VMSA', coverage=False, timeout=3000)
     ctx.mc('MC_LPAE', coverage=False, timeout=3000)
+    r = ctx.mc('MC_LPAE', constants={'GEN': 'TRUE'}, coverage=False, timeout=3000)
+    scen = tlc.printed_json(r['out'])
+    if len(scen) < 3000:
+        raise tlc.MachineryError('MC_LPAE printed only %d scenarios' % len(scen))
+    scen.sort(key=repr)
+    if q:
+        scen = [x for i, x in enumerate(scen) if (i + ctx.seed) % 3 == 0]
+    lp = lpae_scenarios(ctx, scen)
     tasks = [(vmsa_task, dict(name='vmsa-%d' % i, seed=ctx.seed + i, tables=6 if q else 120, per_table=40)) for i in range(16)]
     tasks += [(vmsa_ld_task, dict(name='lpae-%d' % i, seed=ctx.seed + 50 + i, tables=3 if q else 60, per_table=50)) for i in range(16)]
-    groups = C.parallel(_dispatch, tasks)
+    groups = C.parallel(_dispatch, tasks) + [lp.data()]
     res = C.judge_groups(ctx, groups, clause_filter, rnd=rnd, chunk=1500,
                          site_of=lambda e, v: e['act']['n'] if e['act']['n'] != 'Step' else (e.get('cls') or v['path']),
                          tags_of=lambda g, e, v: dict(g.meta.get(e['id'], {}), out=e['out'], path=v['path']))
